@@ -122,6 +122,11 @@ __CPROVER_requires(__CPROVER_w_ok(buffer, len))                 /* CHECKED at th
 __CPROVER_assigns(__CPROVER_object_upto(buffer, len))
 __CPROVER_ensures(__CPROVER_return_value <= len)
 ;
+size_t rtosc_vmessage(char *buffer, size_t len, const char *address, const char *arguments, va_list va)
+__CPROVER_requires(__CPROVER_w_ok(buffer, len))                 /* CHECKED at the call site */
+__CPROVER_assigns(__CPROVER_object_upto(buffer, len))
+__CPROVER_ensures(__CPROVER_return_value <= len)
+;
 extern size_t G_MAXMSG;   /* ghost: MaxMsg of the link under proof (rely: queued messages are <= MaxMsg) */
 size_t rtosc_message_ring_length(ring_t *ring)
 __CPROVER_requires(__CPROVER_r_ok(ring, 2 * sizeof(ring_t)))
@@ -156,6 +161,18 @@ __CPROVER_requires(TL_WF(self) && GQ < self->ring->size)
 __CPROVER_assigns(self->ring->write, __CPROVER_object_upto(self->ring->buffer, self->ring->size),
                   __CPROVER_object_upto(self->write_buffer, self->MaxMsg))
 /* whatever is enqueued is at most MaxMsg bytes (the guarantee ThreadLink::read relies on) and fits the free space */
+__CPROVER_ensures(USED(self->ring->write, self->ring->read, self->ring->size)
+                  - USED(__CPROVER_old(self->ring->write), self->ring->read, self->ring->size) <= self->MaxMsg)
+__CPROVER_ensures(USED(self->ring->write, self->ring->read, self->ring->size)
+                  >= USED(__CPROVER_old(self->ring->write), self->ring->read, self->ring->size))
+__CPROVER_ensures(USED(GQ, self->ring->read, self->ring->size) >= USED(__CPROVER_old(self->ring->write), self->ring->read, self->ring->size)
+    || self->ring->buffer[GQ] == __CPROVER_old(self->ring->buffer[GQ]))
+;
+
+void ThreadLink_write(struct ThreadLink *self, const char *dest, const char *args, ...)
+__CPROVER_requires(TL_WF(self) && GQ < self->ring->size)
+__CPROVER_assigns(self->ring->write, __CPROVER_object_upto(self->ring->buffer, self->ring->size),
+                  __CPROVER_object_upto(self->write_buffer, self->MaxMsg))
 __CPROVER_ensures(USED(self->ring->write, self->ring->read, self->ring->size)
                   - USED(__CPROVER_old(self->ring->write), self->ring->read, self->ring->size) <= self->MaxMsg)
 __CPROVER_ensures(USED(self->ring->write, self->ring->read, self->ring->size)
